@@ -165,6 +165,8 @@ func facts(u *introspect.Universe) schemaFacts {
 }
 
 type runner struct {
+	// via, when set, answers a request instead of graphql.Do (retained plan / plan cache routes of the histories)
+	via func(text string, vars map[string]interface{}) *graphql.Result
 	c     *core.Child
 	m     *model.Schema
 	facts schemaFacts
@@ -194,7 +196,11 @@ func (rn *runner) check(env *build.Env, u *introspect.Universe, text string, var
 	}
 	var res *graphql.Result
 	if c.Guard(sigPrefix+"panic:Do", det(), func() {
-		res = graphql.Do(graphql.Params{Schema: env.Schema, RequestString: text, VariableValues: vars})
+		if rn.via != nil {
+			res = rn.via(text, vars)
+		} else {
+			res = graphql.Do(graphql.Params{Schema: env.Schema, RequestString: text, VariableValues: vars})
+		}
 	}) {
 		return
 	}
@@ -479,6 +485,18 @@ func (rn *runner) histories(si int, seed uint64, standalone []string, begin func
 		if pi == 0 {
 			rn.check(env, introspect.New(m0), lightQuery, nil, "history:", []string{}, "history-base")
 		}
+		// retained plans: a plan prepared (PlanQuery) and a cache entry made
+		// (PlanCache.Get) BEFORE the types are appended; executed afterwards they
+		// are still introspection requests against the schema as it is then
+		var retained *graphql.Plan
+		var cache *graphql.PlanCache
+		if pi%2 == 0 {
+			if doc, perr := harness.Parse(mediumQuery); perr == nil {
+				retained, _ = graphql.PlanQuery(&env.Schema, doc, "")
+			}
+			cache = graphql.NewPlanCache(graphql.PlanCacheOptions{Normalize: pi%4 == 0})
+			cache.Get(&env.Schema, mediumQuery, "")
+		}
 		supplied := append([]string{}, initial...)
 		ok := true
 		for step, n := range order {
@@ -509,6 +527,21 @@ func (rn *runner) histories(si int, seed uint64, standalone []string, begin func
 				continue
 			}
 			c.Feature("history:re-append")
+		}
+		if retained != nil {
+			rn.via = func(text string, vars map[string]interface{}) *graphql.Result {
+				return graphql.ExecutePlan(retained, graphql.ExecuteParams{Schema: env.Schema, Args: vars})
+			}
+			rn.check(env, uFull, mediumQuery, nil, "history:retained-plan:", order, "history-final-retained-plan")
+			rn.via = func(text string, vars map[string]interface{}) *graphql.Result {
+				pr := cache.Get(&env.Schema, text, "")
+				if pr.Plan == nil {
+					return &graphql.Result{Errors: pr.Errors}
+				}
+				return graphql.ExecutePlan(pr.Plan, graphql.ExecuteParams{Schema: env.Schema, Args: pr.SynthArgs})
+			}
+			rn.check(env, uFull, mediumQuery, nil, "history:plan-cache:", order, "history-final-plan-cache")
+			rn.via = nil
 		}
 		switch {
 		case pi == 0:
